@@ -8,8 +8,8 @@ import gen, s4, lang
 from props import c01
 
 PROP_FILE = 'Props/C03.v'
-GROUPS = ['imain']
-LEAF_LEMMAS = []
+GROUPS = ['imain', 'theory']
+LEAF_LEMMAS = ['tel_clauses_spec', 'boolean_clauses_spec', 'make_equal_spec', 'make_disjunction_spec', 'prev_guards_spec', 'next_guards_spec', 'telp_guards_spec']
 ASSUMPTIONS = ['gringo/clasp contract G1-G6 (DESIGN.md 5.3)',
                'the Coq model BodyTheoryCore covers the operator core {atom,~,&,>,>:,>?,<?}; the remaining operators are tied by the semantic-layer theorem and the correspondence']
 ATOMS = ['a', 'b']
@@ -24,7 +24,7 @@ def items(ctx, un=gen.BODY_UN, bi=gen.BODY_BIN, n=None, depth=None, salt='items'
         atoms = ATOMS + (['c'] if rng.random() < 0.3 else [])
         pool = []
         k = rng.choice([1, 2, 2, 3, 4])
-        fs = [('tel', gen.formula(rng, atoms, rng.randint(1, depth), un, bi, pool)) for _ in range(k)]
+        fs = [('tel', gen.late_future(rng, atoms) if (un is gen.BODY_UN and rng.random() < 0.25) else gen.formula(rng, atoms, rng.randint(1, depth), un, bi, pool)) for _ in range(k)]
         out.append((gen.context_program(rng, atoms), fs))
     return out
 
